@@ -18,6 +18,7 @@ Definition t_hist1 : list event := x_connect_events x_connack_bytes ++ [EvUser 1
 Lemma t_timeout :
   Forall ok_event (t_hist1 ++ [EvService 899 4096 0; EvService 900 4096 0]) /\ ok_cfg (x_cfg 0) /\
   t_view (x_state (x_cfg 0) t_hist1) = (Connected, [(1, 2)], [], [(2, 900)], [(2, true, Some 500, Some 400, 0)], None, None) /\
+  (s_hq (x_state (x_cfg 0) t_hist1), s_rq (x_state (x_cfg 0) t_hist1), s_uq (x_state (x_cfg 0) t_hist1), s_cur (x_state (x_cfg 0) t_hist1)) = ([], [], [], None) /\
   epoch t_hist1 = [400; 0] /\
   map o_res (x_outs (x_cfg 0) (t_hist1 ++ [EvService 899 4096 0; EvService 900 4096 0])) = repeat (Ok tt) 8 /\
   map o_done (x_outs (x_cfg 0) (t_hist1 ++ [EvService 899 4096 0; EvService 900 4096 0])) =
